@@ -4,6 +4,7 @@ import (
 	"errors"
 	"fmt"
 	"sort"
+	"strings"
 	"time"
 
 	awsapi "github.com/aws/aws-sdk-go/aws"
@@ -220,13 +221,19 @@ func (s EC2API) CreateFleet(in *ec2.CreateFleetInput) (*ec2.CreateFleetOutput, e
 		extra["spot.min"] = fmt.Sprint(awsapi.Int64Value(in.SpotOptions.MinTargetCapacity))
 	}
 	nover := 0
+	var ovl []string
 	for _, c := range in.LaunchTemplateConfigs {
 		nover += len(c.Overrides)
+		for _, o := range c.Overrides {
+			ovl = append(ovl, awsapi.StringValue(o.SubnetId)+"/"+awsapi.StringValue(o.InstanceType))
+		}
 		if c.LaunchTemplateSpecification != nil {
 			extra["lt"] = awsapi.StringValue(c.LaunchTemplateSpecification.LaunchTemplateId) + ":" + awsapi.StringValue(c.LaunchTemplateSpecification.Version)
 		}
 	}
 	extra["overrides"] = fmt.Sprint(nover)
+	sort.Strings(ovl)
+	extra["override-list"] = strings.Join(ovl, ",")
 	extra["tagged"] = fmt.Sprint(len(in.TagSpecifications) > 0)
 	grp := w.group()
 	e := w.log(Entry{Op: OpCreateFleet, Target: grp, Val: total, Extra: extra})
